@@ -239,8 +239,14 @@ def gen_params(seed, shard, i):
 # --------------------------------------------------------------------------
 def call(rec, case, name, fn, *args):
     rec.ev()
+    before = [a.copy() if isinstance(a, np.ndarray) else None for a in args]
     try:
-        return True, fn(*args)
+        out = fn(*args)
+        for k, (a, b) in enumerate(zip(args, before)):
+            if b is not None and not np.array_equal(a, b, equal_nan=True):
+                rec.violation("input-mutated", case, {"function": name, "argument": k})
+                return False, None
+        return True, out
     except Exception as exc:
         key = "oem-contract-" + name if "ViolationError" in type(exc).__name__ \
             else "oem-exception-" + name
